@@ -438,7 +438,7 @@ PLANS = {
     "C08": static_plan("C08", ["C08", "C08files", "C08shape5", "C11b"], ["C08", "C08files", "C08shape5", "C11b", "C01"], {"distinct_feeds": 1000, "relations_judged": 1400}, large=True),
     "C09": static_plan("C09", ["C09", "structure"], ["C09", "structure", "C09pairs"], {"distinct_feeds": 120, "relations_judged": 120}),
     "C10": static_plan("C10", ["C10"], ["C10"], {"distinct_feeds": 300, "relations_judged": 400}),
-    "C11": static_plan("C11", ["C11q", "C11b"], ["C11", "C11b"], {"distinct_feeds": 2000}),
+    "C11": static_plan("C11", ["C11q", "C11b", "structure"], ["C11", "C11b", "structure"], {"distinct_feeds": 2000}),
     "C18": c18_plan,
     "C06": c06_plan,
     "C13": c13_plan,
